@@ -71,7 +71,7 @@ def run(tier, out):
         "self_test": st,
         "oracle_applied_in": "harness per member, TLC per family / trust record",
     }
-    cloudcommon.part(PID, tier, out, cov)
+    cloudcommon.part(PID, tier, out, cov, extra={"trust graphs": tt + ".cloud"})
     return out.finish("model_checking", cov, assumptions=[
         "Ed25519 / SHA-256 are not attacked: 'not produced with a trusted key' is realised as alteration of genuine datagrams and signing with other keys",
         "a replayed verbatim genuine datagram verifies by construction; what it may cause is bounded by C05 / C09"])
